@@ -228,14 +228,29 @@ static int URI_FUNC(RemoveBaseUriImpl)(URI_TYPE(Uri) * dest,
 							const URI_TYPE(PathSegment) * baseSeg = absBase->pathHead;
 	/* [19/50]	         bool pathNaked = true; */
 							UriBool pathNaked = URI_TRUE;
+							const URI_TYPE(PathSegment) * walker = absBase->pathHead;
+							UriBool baseHasDotSegment = URI_FALSE;
 	/* [20/50]	         undef(last(Base.path)); */
 							/* GROUPED: the last segment of the base is not a directory and
 							 * the last segment of the source names the target itself,
 							 * so the walk below stops in front of either */
 	/* [21/50]	         T.path = ""; */
 							dest->absolutePath = URI_FALSE;
+							/* A dot segment in the base may cancel what was matched
+							 * before it, so nothing is matched then (climbing out of
+							 * all of the base's directories is always right) */
+							while ((walker != NULL) && !baseHasDotSegment) {
+								const int len = (int)(walker->text.afterLast - walker->text.first);
+								if (((len == 1) || (len == 2))
+										&& (walker->text.first[0] == _UT('.'))
+										&& (walker->text.first[len - 1] == _UT('.'))) {
+									baseHasDotSegment = URI_TRUE;
+								}
+								walker = walker->next;
+							}
 	/* [22/50]	         while (first(A.path) == first(Base.path)) do */
 							while ((sourceSeg != NULL) && (baseSeg != NULL)
+									&& !baseHasDotSegment
 									&& (sourceSeg->next != NULL) && (baseSeg->next != NULL)
 									&& !URI_FUNC(CompareRange)(&sourceSeg->text, &baseSeg->text)) {
 	/* [23/50]	            A.path++; */
